@@ -100,6 +100,7 @@ type Gen struct {
 	macroDepth int
 	preDecl    map[string]bool // symbols declared by the spec prelude
 	forbid     []Forbid
+	freeUsed   map[string]bool
 	orderHeaps []string
 	pass1      map[int]map[string]bool
 	nbound     int
@@ -813,6 +814,7 @@ func (g *Gen) reset() {
 	g.usedCtr = map[string]bool{}
 	g.uncontr = map[string]bool{}
 	g.inferred = map[string]bool{}
+	g.freeUsed = map[string]bool{}
 }
 
 // Generate runs VC generation (two passes: the first discovers which heaps each
